@@ -269,3 +269,17 @@ HARMLESS += [
  # over-factoring is compensated by a negative bracket exponent: t^2 * D = V^2 / D (same value)
  {"id": "c11-h-factor-minexp", "prop": "C11", "file": _IT, "old": "                        min_exp = min(eri_exp, bk_exponent)", "new": "                        min_exp = max(eri_exp, bk_exponent)"},
 ]
+
+MUTANTS += [
+ {"id": "c16-group-limit-growth", "prop": "C16", "file": _OC,
+  "old": "            if new_positions == positions or \\\n                    len(new_positions) > max_group_size:\n                break",
+  "new": "            if new_positions == positions:\n                break"},
+ {"id": "c16-group-limit-initial", "prop": "C16", "file": _OC,
+  "old": "        if len(positions) > max_group_size:\n            continue",
+  "new": "        if len(positions) > max_group_size + 1:\n            continue"},
+]
+HARMLESS += [
+ {"id": "c16-h-group-limit-strict", "prop": "C16", "file": _OC,
+  "old": "        if len(positions) > max_group_size:\n            continue",
+  "new": "        if not len(positions) <= max_group_size:\n            continue"},
+]
